@@ -677,3 +677,120 @@ def ob_min_variation_sample(ctx, sample, n_obj):
         res.status, res.detail = 'inconclusive', 'vacuous: the criterion never fires'
     res.time = time.time() - t0
     return res
+
+
+# ---------------------------------------------------------------------------------------------------------------------
+# C08 / C19: the phase step of the self-organising population
+
+def ob_rosomaxa_phase(ctx, sizes=(2, 3, 4, 8)):
+    """C08 (selection returns something whenever the population is non-empty) / C19 (phases only move forward): the part of
+    `Rosomaxa::update_phase` (real MIR, bit-precise IEEE for the scaling by the speed ratio) that does not touch the network -
+    from the Initial phase (not enough individuals yet, or the exploration phase is skipped) and from the Exploitation phase -
+    for every configured selection size in 2..=64 (what `Rosomaxa::new` admits), every speed (unknown / slow with any ratio in
+    (0,1] / moderate) and every termination estimate in [0,1]: the phase never moves backwards, and an Exploitation phase is
+    always entered / left with a selection size of at least 1 (at most the configured one when entered; 2..=4 afterwards)."""
+    from symex import DynV
+    name = 'rosomaxa_phase'
+    res = Result(name)
+    res.bounds = (f'selection size in {tuple(sizes)} (case split), initial size 4, exploration ratio and termination estimate any doubles in [0,1], speed unknown / moderate / slow with ratio any double in (0,1]; '
+                  'phases Initial (0 individuals) and Exploitation (previous selection size 1..=64); the Exploration phase (network) is outside')
+    t0 = time.time()
+    fns = ctx.prog.find_method('Rosomaxa', 'update_phase')
+    if len(fns) != 1:
+        raise Inconclusive('Rosomaxa::update_phase not found')
+    cfg_order = ctx.layout.fields('RosomaxaConfig')
+    st_order = ctx.layout.fields('HeuristicStatistics')
+    env_order = ctx.layout.fields('Environment')
+    me_order = ctx.layout.fields('Rosomaxa')
+
+    class Env(IeeeEnv):
+        def dyn_closure(self, engine, st, tag, args):
+            if tag == 'logger':
+                return UnitV()
+            return super().dyn_closure(engine, st, tag, args)
+
+    # size = configured selection size (Initial) / previous selection size (Exploitation); both case-split concretely
+    cases = [('initial', sp, n) for n in sizes for sp in ('unknown', 'slow', 'moderate')] + [('exploitation', 'slow', n) for n in (1, 2, 4, 7, 64)]
+    for _once in (0,):
+        for phase, speed, size in cases:
+            env = Env(ctx.prog, ctx.layout)
+            eng = symex.Engine(ctx.prog, ctx.layout, env, solver_timeout_ms=60000)
+            holder = {}
+
+            def body(st, env=env, eng=eng, phase=phase, speed=speed, holder=holder, size=size):
+                env.assumptions.clear()
+                # the configured size is case-split concretely (int -> double conversion of a symbolic integer does not come back from the FP solver)
+                sel = z3.IntVal(size if phase == 'initial' else 8)
+                old = z3.IntVal(size)
+                ratio = env.sym_fp('speed_ratio', finite=True)
+                expl = env.sym_fp('exploration_ratio', finite=True)
+                est = env.sym_fp('termination_estimate', finite=True)
+                zero, one = z3.FPVal(0.0, F64), z3.FPVal(1.0, F64)
+                env.assumptions.extend([z3.fpGT(ratio.t, zero), z3.fpLEQ(ratio.t, one), z3.fpGEQ(expl.t, zero), z3.fpLEQ(expl.t, one),
+                                        z3.fpGEQ(est.t, zero), z3.fpLEQ(est.t, one)])
+                cfg = [Opaque(f) for f in cfg_order]
+                cfg[cfg_order.index('selection_size')] = IV(sel)
+                cfg[cfg_order.index('initial_size')] = IV(4)
+                cfg[cfg_order.index('exploration_ratio')] = expl
+                config = Agg('struct', cfg, 'RosomaxaConfig')
+                sv = {'unknown': EnumV('HeuristicSpeed', 0, {}),
+                      'slow': EnumV('HeuristicSpeed', 1, {1: [ratio, FP(z3.FPVal(1.0, F64)), mk_option(False, ty='Option<usize>')]}),
+                      'moderate': EnumV('HeuristicSpeed', 2, {2: [FP(z3.FPVal(1.0, F64)), mk_option(False, ty='Option<usize>')]})}[speed]
+                stf = [Opaque(f) for f in st_order]
+                stf[st_order.index('speed')] = sv
+                stf[st_order.index('termination_estimate')] = est
+                stf[st_order.index('generation')] = IV(7)
+                statistics = Agg('struct', stf, 'HeuristicStatistics')
+                ef = [Opaque(f) for f in env_order]
+                ef[env_order.index('logger')] = ArcV(Cell(DynV('logger')))
+                environment = ArcV(Cell(Agg('struct', ef, 'Environment')))
+                ph = EnumV('RosomaxaPhases', 0, {0: [VecV([])]}) if phase == 'initial' else EnumV('RosomaxaPhases', 2, {2: [IV(old)]})
+                mf = [Opaque(f) for f in me_order]
+                mf[me_order.index('environment')] = environment
+                mf[me_order.index('config')] = config
+                mf[me_order.index('phase')] = ph
+                me = Cell(Agg('struct', mf, 'Rosomaxa'))
+                eng.exec_fn(st, fns[0], [RefV(me, 0, True), RefV(Cell(statistics), 0)])
+                holder.update(sel=sel, old=old, ratio=ratio, est=est, expl=expl)
+                return me.v.fields[me_order.index('phase')]
+
+            paths = eng.explore(body)
+            res.paths += len(paths)
+            res.functions |= eng.functions_used
+            for st, out in paths:
+                if out is None:
+                    if not no_panic(ctx, res, env, st, what=name):
+                        break
+                    continue
+                v = out.variant()
+                if v is None:
+                    res.status, res.detail = 'inconclusive', 'symbolic phase'
+                    break
+                sel, old = holder['sel'], holder['old']
+                if phase == 'exploitation':
+                    ok = v == 2
+                    claim = z3.And(out.payload[2][0].t >= 2, out.payload[2][0].t <= 4) if ok else z3.BoolVal(False)
+                else:
+                    ok = v in (0, 2)          # no network is built with zero individuals; never "backwards"
+                    claim = z3.BoolVal(ok) if v != 2 else z3.And(out.payload[2][0].t >= 1, out.payload[2][0].t <= sel)
+                if not decide_claim(ctx, res, env, st, claim, what=f'{name}: from {phase}, speed {speed}: phase only forward, selection size of Exploitation >= 1'):
+                    if res.status == 'violated' and res.model is not None:
+                        m = res.model
+                        fpv = lambda x: float(eval(str(m.eval(x.t, model_completion=True)).replace('*(2**', '*(2.0**'))) if False else str(m.eval(x.t, model_completion=True))
+                        res.case = {'kind': 'rosomaxa_phase', 'phase': phase, 'speed': speed, 'selection_size': m.eval(sel, model_completion=True).as_long(),
+                                    'previous_selection_size': m.eval(old, model_completion=True).as_long(),
+                                    'ratio_bits': m.eval(z3.fpToIEEEBV(holder['ratio'].t), model_completion=True).as_long(),
+                                    'estimate_bits': m.eval(z3.fpToIEEEBV(holder['est'].t), model_completion=True).as_long(),
+                                    'exploration_bits': m.eval(z3.fpToIEEEBV(holder['expl'].t), model_completion=True).as_long()}
+                    break
+                if not no_panic(ctx, res, env, st, what=name):
+                    break
+                res.witnesses += int(witness(ctx, res, env, st, z3.BoolVal(True)))
+            if res.status != 'holds':
+                break
+        if res.status != 'holds':
+            break
+    if res.status == 'holds' and res.witnesses == 0:
+        res.status, res.detail = 'inconclusive', 'vacuous'
+    res.time = time.time() - t0
+    return res
